@@ -6,6 +6,7 @@
 
 #[macro_use]
 mod core;
+mod cont;
 mod csweep;
 mod docsweep;
 mod flavor;
